@@ -32,6 +32,16 @@ def impl_main():
     from pyscsi.pyscsi.scsi_device import SCSIDevice
     from pyscsi.pyiscsi.iscsi_device import ISCSIDevice
     from pyscsi.pyscsi.scsi_enum_command import spc
+    from pyscsi.pyscsi import scsi_enum_command as ec
+    from pyscsi.pyscsi.scsi_command import SCSICommand
+    from pyscsi.pyscsi.scsi_opcode import OpCode
+
+    class RawCommand(SCSICommand):
+        _cdb_bits = {"opcode": [0xFF, 0]}
+
+        def __init__(self, opcode):
+            SCSICommand.__init__(self, opcode, 0, 0)
+            self.cdb = self.build_cdb(opcode=self.opcode.value)
 
     d = tempfile.mkdtemp(prefix="verif-exec-", dir="/dev/shm")
     node = os.path.join(d, "sg0")
@@ -45,6 +55,11 @@ def impl_main():
             res = []
             for i, st in enumerate(hist):
                 cmd = cmds[st["cmd"]]
+                if "op" in st:
+                    # what a status means does not depend on which command it answers or on the command set the device object carries:
+                    # a bare command with this operation code, the device attached to this command set
+                    cmd = RawCommand(OpCode("OP_%02X" % st["op"], st["op"], {}))
+                    sd.opcodes = idev.opcodes = getattr(ec, st["set"])
                 if st["t"] == "iscsi":
                     iscsi.SCRIPT[:] = [(st["v"], sense_for(i), None)]
                     dev = idev
@@ -88,6 +103,13 @@ def gen_hists(seed, count):
         for raw in (False, True):
             hists.append([dict(t="sg", cmd=0, o=o, raw=raw)])
             hists.append([dict(t="sg", cmd=0, o="cc", raw=True), dict(t="sg", cmd=0, o=o, raw=raw)])
+    # every operation code with a fixed CDB length x every command set the device object may carry x the statuses that are successes of
+    # SOME command in the standards (CONDITION MET, INTERMEDIATE ...) and a few others: the library reports each of them as its error
+    for cs in ("spc", "sbc", "ssc", "smc", "mmc"):
+        for op in list(range(0x00, 0x60)) + list(range(0x80, 0xC0)):
+            for v in (0x04, 0x10, 0x14, 0x08, 0x22):
+                hists.append([dict(t="iscsi", cmd=0, v=v, raw=bool((op + v) & 1), op=op, set=cs)])
+    count += len(hists)
     while len(hists) < count:
         h = []
         for _ in range(rng.randint(2, 30)):
@@ -162,7 +184,7 @@ Open Scope N_scope.
 
 def run(rep, tier, seed):
     import vlib
-    count = 1500 if tier == "quick" else 12000
+    count = 450 if tier == "quick" else 10000          # random histories, on top of the exhaustive sweeps
     hists = gen_hists(seed, count)
     results = vlib.run_impl("corr/exec.py", hists, args=["--impl"], extra_path=[os.path.join(vlib.TOOLS, "stubs")], timeout=900)
     with vlib.Lock():
